@@ -1,7 +1,8 @@
 (* C21 -- load-balancing plans reflect the live cluster membership.
    Model: Model/LBP.v (hand-written; tied to cassandra/policies.py by the step-by-step correspondence run of checks/C21.py).
-   Quantification: EVERY history `evs` in which populate, if present, is the first call (`delivered`, as Cluster.connect /
-   add_execution_profile deliver it), every initial host location table `e`, every policy parameter (white list, local_dc
+   Quantification: EVERY history `evs` in which populate never forgets a host the policy already knows (`delivered`: populate
+   hands over all hosts of the cluster; it is the first call -- Cluster.connect, add_execution_profile -- and Cluster.connect
+   repeats it with the same list for the legacy policy; see C21_delivered_populate_first), every initial host location table `e`, every policy parameter (white list, local_dc
    given or inferred late from any contact-point list, used_hosts_per_remote_dc any integer), every set-iteration order `ord`
    and every rotation position (it is part of the state: histories contain MakePlan steps and any randint value).
    `members evs` is the abstract membership of DESIGN 4.0: populated / added / up minus down / removed. *)
@@ -9,6 +10,12 @@ From Coq Require Import ZArith List Bool.
 From Verif Require Import LBP LBP_base_proofs C21_proofs.
 Import ListNotations.
 Local Open Scope Z_scope.
+
+(* the hypothesis `delivered` covers every history whose only populate is its first event, of any length *)
+Theorem C21_delivered_populate_first : forall evs : list event,
+  forallb (fun e => negb (is_populate e)) (tl evs) = true -> delivered evs.
+Proof. exact populate_first_delivered. Qed.
+Print Assumptions C21_delivered_populate_first.
 
 (* no host twice, for RoundRobin, WhiteList and DCAware alike *)
 Theorem C21_nodup : forall (b : base) (e : env) (evs : list event) (ord : list Z),
@@ -113,4 +120,14 @@ Example C21_nonvacuous :
   delivered evs /\
   b_plan (b_run (BDCA 0 1 [1]) e evs) [] = [1; 3; 2] /\
   map (fun h => dist_code (b_distance (BDCA 0 1 [1]) (b_run (BDCA 0 1 [1]) e evs) h)) [0; 1; 2; 3; 4] = [-1; 0; 1; 0; -1].
-Proof. vm_compute. repeat split; reflexivity. Qed.
+Proof. intros e evs. split; [apply populate_first_delivered; reflexivity|]. split; vm_compute; reflexivity. Qed.
+
+(* Cluster.connect in legacy mode: the same policy object is populated twice with the same host list *)
+Example C21_nonvacuous_double_populate :
+  let evs := [Populate [0; 1; 2] [0; 1; 2] 1; Populate [0; 1; 2] [2; 1; 0] 0; Down 1; MakePlan] in
+  delivered evs /\ b_plan (b_run (BDCA 1 1 []) {| e_dc := [(0, 1); (1, 2); (2, 1)]; e_rack := [] |} evs) [] = [0; 2].
+Proof.
+  intros evs; split; [|vm_compute; reflexivity].
+  unfold delivered, evs. cbn [ok_from pop_ok mstep].
+  split; [intros h H; discriminate|]. split; [intros h H; exact H|]. split; [exact I|]. split; exact I.
+Qed.
